@@ -18,6 +18,12 @@ theorem writeClass_rywClass (x : Handle × Op) (h : writeClass x = true) : rywCl
 theorem bufferOnlyAt_writeClass (r : Node) (h : Handle) (op : Op) (hc : writeClass (h, op) = true) :
     bufferOnlyAt r h op = true := by
   cases op <;> simp [writeClass] at hc
+  case copyFile a b =>
+    cases h with
+    | cache => rfl
+    | sub base =>
+      simp only [bufferOnlyAt, cacheOp, subOp]
+      cases reduceAbsPath a <;> cases reduceAbsPath b <;> rfl
   all_goals (cases h <;> simp [bufferOnlyAt, cacheOp, subOp] <;> (try split) <;> simp_all)
 
 theorem cacheOp_writeFile {h : Handle} {b : List Name}
@@ -84,6 +90,25 @@ theorem cinv_step {s : State} {D : Node} (V : VInv s D) (J : JInv s) (h : Handle
       have hw := vinv_mkdirAll V (cachePath h p raw) (b ++ p) hnc hpre hD' hpost
       exact jinv_mkdir_like J _ (b ++ p) (cleanPath (cachePath h p raw)) (Path.norm_cleanPath _ _ hnc)
         (V.mkdirOk hpre) hw.2.2 rfl rfl rfl rfl
+  | copyFile rs rd =>
+    simp only [FS.Step] at hstep
+    cases hns : norm rs with
+    | none => rw [hns] at hstep; simp only [] at hstep; rw [hstep.1] at hdir; cases hdir
+    | some ps =>
+      cases hnd : norm rd with
+      | none => rw [hns, hnd] at hstep; simp only [] at hstep; rw [hstep.1] at hdir; cases hdir
+      | some pd =>
+        rw [hns, hnd] at hstep
+        simp only [] at hstep
+        obtain ⟨hpre, hpost⟩ := mut_ok hstep hdir
+        rw [step_eq_copyFile hshape s rs rd ps pd hns hnd]
+        have hncd := norm_cachePath hshape rd pd hnd
+        obtain ⟨d0, _, _, hbuf, hwj, hmj, hrj, hraj, hwok⟩ :=
+          vinv_copyFile V (cachePath h ps rs) (cachePath h pd rd) (b ++ ps) (b ++ pd)
+            (norm_cachePath hshape rs ps hns) hncd hpre hD' hpost
+        have hred := Path.norm_reduced _ _ hncd
+        exact jinv_write_like J _ (b ++ pd) d0 (join (b ++ pd)) (Path.norm_join _ hred)
+          (norm_pathDir_join _ hred hwok.1) (V.writeOk hwok) hbuf hwj hmj hrj hraj
   | _ => simp [writeClass] at hc
 
 /-- ALL HISTORIES of the class -/
